@@ -26,7 +26,7 @@ def plan(ctx):
         else:
             cases = P.corpus_cases(ctx, v, n_files=300, n_w3=600, modes=30, max_file_bytes=60000, w1_max_bytes=150000, max_w4_bytes=40000)
             cases += P.w9_cases(ctx, 2400)
-        shards.extend(P.split(ctx, v, cases, k, "C12:"))
+        shards.extend(P.split(ctx, v, cases, k, "C12:", extra={"docs": True}))
     return shards
 
 
@@ -63,6 +63,20 @@ def data_fp(x, dc):
     if x is Ellipsis:
         return ("...",)
     return (t.__name__, x)
+
+
+def _type_diff(a, b, path="$"):
+    """First path at which two structural fingerprints differ."""
+    if type(a) is not type(b) or not isinstance(a, tuple):
+        return "%s: %r vs %r" % (path, a, b) if a != b else None
+    if len(a) != len(b) or (a and b and a[0] != b[0] and isinstance(a[0], str)):
+        return "%s: %s(%d items) vs %s(%d items)" % (path, a[0] if a else "?", len(a), b[0] if b else "?", len(b))
+    for i, (x, y) in enumerate(zip(a, b)):
+        if x != y:
+            r = _type_diff(x, y, "%s/%d" % (path, i))
+            if r:
+                return r
+    return None
 
 
 def clobber(doc, rng):
@@ -111,7 +125,8 @@ def run(shard):
     state = {"case": None, "hist": []}
 
     def canon(doc):
-        return json.dumps(doc, sort_keys=True)
+        # frozenset element lists are unordered by nature (their listing order follows set iteration order)
+        return H.canon_json(doc)
 
     def viol(monitor, clause, detail):
         H.violation("C12", monitor, clause, dict(state["case"], history=" ".join(state["hist"][-12:])), detail)
@@ -133,7 +148,8 @@ def run(shard):
     def pre_json(a, k, depth):
         doc = a[1] if len(a) > 1 else k.get("json_data")
         try:
-            return canon(doc)
+            # type-exact structural snapshot (a list turned into a tuple must be seen) + text for the witness
+            return (data_fp(doc, dc), json.dumps(doc, sort_keys=True))
         except (TypeError, ValueError):
             return None
 
@@ -143,10 +159,14 @@ def run(shard):
         H.count("checks:C12.arg_unchanged")
         H.count("evaluations")
         doc = a[1] if len(a) > 1 else k.get("json_data")
+        snap_fp, snap = snap
         try:
-            now = canon(doc)
+            now = json.dumps(doc, sort_keys=True)
         except (TypeError, ValueError) as e:
             now = "unserializable after the call: %r" % (e,)
+        if now == snap and data_fp(doc, dc) != snap_fp:
+            viol("from_json_data", "argument mutated", "the JSON document passed to from_json_data has the same JSON text after the call but "
+                 "different container types (e.g. a list replaced by a tuple): %s" % H.short(_type_diff(snap_fp, data_fp(doc, dc)), 300))
         if now != snap:
             i = 0
             while i < min(len(now), len(snap)) and now[i] == snap[i]:
@@ -201,6 +221,11 @@ def run(shard):
         if not ok:
             viol(label, "repeat call result differs", "the n-th call on the same argument returned a different %s" % kind)
 
+    docs_out = open(H._out.name + ".docs", "w") if shard.get("docs") else None
+    docs_bytes = [0]
+    if shard.get("role") == "json_only":
+        run_json_only(shard, CodeData, H, dc, json, canon, viol, state, same_data, clobber)
+        return
     for case, id_, code, text in corpus.iter_cases(shard):
         state["case"] = corpus.replay_case(case)
         if case["k"] == "w9":
@@ -212,6 +237,14 @@ def run(shard):
             H.count("decode_raised")
             continue
         x = x_first[0]
+        if docs_out is not None and docs_bytes[0] < (400 * 1024 if shard.get("tier") == "quick" else 4 * 1024 * 1024):
+            try:
+                line = json.dumps({"id": id_, "producer": H.PYTAG, "doc": x.to_json_data()})
+                if len(line) < 60000:
+                    docs_bytes[0] += len(line)
+                    docs_out.write(line + "\n")
+            except Exception:
+                pass
         nested = sum(1 for _ in H.iter_code(code)) - 1
         # pool of repeatable operations on shared arguments
         firsts = {}
@@ -296,3 +329,113 @@ def run(shard):
         H.feature("history_len:%d" % (len(state["hist"]) // 8 * 8))
         if H._counters.get("cases", 0) <= 4:
             H.sample({"id": id_, "history": " ".join(state["hist"])})
+
+
+def run_json_only(shard, CodeData, H, dc, json, canon, viol, state, same_data, clobber):
+    """The JSON half of the API on hosts that cannot build the code objects (3.11+), and on the producers' documents of
+    other versions: same parsed document loaded repeatedly, to_json_data / normalize repeated, documents clobbered."""
+    for path in shard["doc_files"]:
+        for line in open(path):
+            rec = json.loads(line)
+            state["case"] = {"k": "doc", "id": rec["id"], "producer": rec["producer"]}
+            state["hist"] = []
+            rng = H.rng_for(shard.get("seed", 0), "c12json", rec["id"], rec["producer"])
+            doc = rec["doc"]
+            snap = canon(doc)
+            snap_fp = data_fp(doc, dc)
+            firsts = {}
+            y = None
+            for op in ["L", "L", "J", "N", "L", "NJ", "J", "L", "N"]:
+                state["hist"].append(op)
+                try:
+                    if op == "L":
+                        r = CodeData.from_json_data(doc)          # the very same parsed document every time
+                        kind = "data"
+                        y = r
+                    elif op == "J":
+                        r = y.to_json_data()
+                        kind = "json"
+                        keep = canon(r)
+                        before = data_fp(y, dc)
+                        H.count("checks:C12.clobber")
+                        H.count("evaluations")
+                        clobber(r, rng)
+                        if data_fp(y, dc) != before:
+                            viol("to_json_data", "returned document shares state with the CodeData", "after mutating the returned document")
+                        r = json.loads(keep)
+                    elif op == "N":
+                        r = y.normalize()
+                        kind = "data"
+                    else:
+                        r = firsts["N"].to_json_data()
+                        kind = "json"
+                except Exception as e:
+                    viol(op, "call raises on valid argument", "%s: %s (history %s)" % (type(e).__name__, H.short(e, 200), " ".join(state["hist"])))
+                    break
+                H.count("checks:C12.repeat")
+                H.count("evaluations")
+                if op in firsts:
+                    ok = same_data(firsts[op], r) if kind == "data" else canon(firsts[op]) == canon(r)
+                    if not ok:
+                        viol(op, "repeat call result differs", "history %s" % " ".join(state["hist"]))
+                else:
+                    firsts[op] = r
+            if canon(doc) != snap or data_fp(doc, dc) != snap_fp:
+                viol("from_json_data", "argument mutated", "the document differs after the history: %s" % H.short(_type_diff(snap_fp, data_fp(doc, dc)), 300))
+            if y is not None:
+                d2 = json.loads(snap)
+                z = CodeData.from_json_data(d2)
+                before = data_fp(z, dc)
+                H.count("checks:C12.clobber")
+                H.count("evaluations")
+                clobber(d2, rng)
+                if data_fp(z, dc) != before:
+                    viol("from_json_data", "loaded CodeData shares state with the document", "after mutating the consumed document")
+            H.distinct("doc|%s|%s" % (rec["producer"], rec["id"]))
+
+
+def offline(ctx, results):
+    """JSON-only consumer phase on every interpreter present (incl. 3.11-3.13) over the producers' documents."""
+    import glob
+    import os
+    import sys
+    import concurrent.futures
+    main = sys.modules["__main__"]
+    run_shard = getattr(main, "run_shard", None)
+    if run_shard is None:
+        import vcheck
+        run_shard = vcheck.run_shard
+    out = {"viols": [], "counters": {}, "per_interp": {}, "worker_problems": [], "extra": {}}
+    doc_files = sorted(glob.glob(os.path.join(ctx.tmp, "out*.jsonl.docs")))
+    if not doc_files:
+        return out
+    shards = []
+    for v in ctx.consumers:
+        k = 2 if v in ctx.producers else 4
+        for i in range(k):
+            part = doc_files[i::k]
+            if part:
+                shards.append({"interp": v, "role": "json_only", "doc_files": part, "label": "C12:json_only:%s#%d" % (v, i), "tier": ctx.tier, "seed": ctx.seed})
+    res = []
+    with concurrent.futures.ThreadPoolExecutor(max_workers=ctx.ncpu) as ex:
+        futs = [ex.submit(run_shard, ctx, 2000 + i, sh, TIMEOUT[ctx.tier]) for i, sh in enumerate(shards)]
+        for f in futs:
+            res.append(f.result())
+    distinct = set()
+    for r in res:
+        got = False
+        for rec in r["records"]:
+            if rec.get("t") == "viol":
+                out["viols"].append(rec)
+            elif rec.get("t") == "summary":
+                got = True
+                pic = out["per_interp"].setdefault(r["interp"], {})
+                for k2, n in rec["counters"].items():
+                    key = k2 if not k2.startswith("checks:") else k2 + ".json_only"
+                    pic[key] = pic.get(key, 0) + n
+                distinct.update(rec["distinct"])
+        if r["status"] != "ok" or not got:
+            out["worker_problems"].append({"shard": r["idx"], "interp": r["interp"], "status": r["status"], "label": r["label"], "stderr": r["stderr"][-1500:]})
+    out["distinct"] = sorted(distinct)
+    out["extra"]["json_only_consumers"] = ctx.consumers
+    return out
